@@ -141,9 +141,13 @@ def scratch_dir(tag):
     return d
 
 
-def run_driver(trace_text):
-    p = subprocess.run([DRIVER], input=trace_text, stdout=subprocess.PIPE, stderr=subprocess.PIPE, text=True)
-    return p.returncode, p.stdout, p.stderr
+def run_driver(trace_text, timeout=3000):
+    try:
+        p = subprocess.run([DRIVER], input=trace_text, stdout=subprocess.PIPE, stderr=subprocess.PIPE, text=True,
+                           timeout=timeout)
+        return p.returncode, p.stdout, p.stderr
+    except subprocess.TimeoutExpired:
+        return 124, "", "driver timeout"
 
 
 # ---------------------------------------------------------------- results
